@@ -37,15 +37,17 @@ def main():
     shapes = rules.corpus(tier, seed())
     ext = rules.extract(shapes)
     queries, meta = [], {}
-    n_prog = n_deriv = n_typed_bad = 0
+    n_prog = n_deriv = n_typed_bad = n_refused = 0
     labelings_upper = 0
     for (shape, syn), job, ans in ext:
         o = ans.get("ok")
-        if o is None or "err" in (o if isinstance(o, dict) else {}) or "err" in ans:
-            continue  # the compiler refused the SQL text: not a program
         if "timeout" in ans or "crash" in ans or "panic" in ans:
-            ck.inconclusive("driver failed on %s: %s" % (rules.sql_of(shape), json.dumps(ans)[:200]))
+            # never skip silently: a shape whose compilation panics is not explored (C18's pipeline sweep reports the panic)
+            ck.inconclusive("rule extraction failed on %s: %s" % (rules.sql_of(shape), json.dumps(ans)[:200]))
             continue
+        if o is None or "err" in (o if isinstance(o, dict) else {}) or "err" in ans:
+            n_refused += 1
+            continue  # the compiler refused the SQL text: not a program
         n_prog += 1
         for strat in ("Soft", "Hard"):
             S = o.get(strat, {})
